@@ -2,6 +2,7 @@
 
 The generator keeps a light *shape* simulation (number of vertices and kind of every object created so far) so that
 the ops it emits are mostly valid; it never looks at the implementation."""
+import json
 from fractions import Fraction
 
 
@@ -58,6 +59,7 @@ class Shape:
         self.hexa = []   # volume mesh with hexahedral cells (only the medit loader reads those back)
         self.attrs = []  # per object: list of (cont, a, number of keys)
         self.closed = [] # closed triangle surface (cut graph)
+        self.two = set() # caller arrays with two columns
 
     def add(self, n, kind, tri=False, intarr=False):
         self.n.append(n)
@@ -95,6 +97,11 @@ def gen_producer(rng, sh, ops, small=True):
         else:
             isint = rng.random() < 0.12
             rows = distinct_pts(rng, n)
+            if style != "hex" and n >= 2 and rng.random() < 0.15:
+                rows[rng.randrange(1, n)] = list(rows[0])          # coincident vertices: valid combinatorics, degenerate geometry
+            if style in ("cloud", "line", "tris") and rng.random() < 0.12:
+                rows = [p[:2] for p in rows]                        # an (n,2) array: from_arrays puts it in the plane z = 0
+                sh.two.add(len(sh.n))
             if style == "hex":     # stacked unit cubes, sheared by a dyadic offset
                 sx, sy = fr(dy(rng, -2, 2)), fr(dy(rng, -2, 2))
                 rows = [[x + sx * z, y + sy * z, float(z)] for z in range(n // 4) for (x, y) in ((0., 0.), (1., 0.), (1., 1.), (0., 1.))]
@@ -209,13 +216,26 @@ def gen_param(rng, sh, allow_slot=True):
     return pt(rng)
 
 
+def gen_producer_twice(rng, sh, ops):
+    """the same producer call (equal arguments) a second time: two independent objects are expected"""
+    k0 = len(ops)
+    o = gen_producer(rng, sh, ops)
+    last = ops[-1]
+    if last[0] in ("proc", "ring", "from_arrays") and rng.random() < 0.25:
+        ops.append(json.loads(json.dumps(last)))
+        o2 = sh.add(sh.n[o], sh.kind[o], sh.tri[o])
+        sh.hexa[o2] = sh.hexa[o]
+        sh.closed[o2] = sh.closed[o]
+    return o
+
+
 def gen_case(rng, maxops=8):
     sh = Shape()
     ops = []
     inv = []
     ints = rng.random() < 0.3        # integer-valued numbers travel as Python ints (int64 vectors on the numpy side)
     for _ in range(rng.choice([1, 1, 2, 2, 3])):
-        gen_producer(rng, sh, ops)
+        gen_producer_twice(rng, sh, ops)
     L = rng.choice([1, 2, 3, 4, 5, 6, maxops])
     k = 0
     while k < L and len(ops) < 3 * maxops:
@@ -309,7 +329,7 @@ def gen_case(rng, maxops=8):
                 x = fr(dy(rng))
                 if sh.intarr[o]:
                     x = float(int(x))
-                ops.append(["edit", o, i, rng.randrange(3), x])
+                ops.append(["edit", o, i, rng.randrange(2 if o in sh.two else 3), x])
         elif r < 0.86:
             m = rng.choice(anyms)
             ext = {0: ["xyz", "mesh", "obj"], 1: ["mesh", "obj", "geogram_ascii"], 2: ["obj", "mesh", "off", "geogram_ascii"],
@@ -366,6 +386,41 @@ def gen_case(rng, maxops=8):
             else:
                 ops.append(["features", m])
             sh.add(None, 1)
+        # ---- the same call again, rotations given as Euler angles, calls that must fail, a merge of nothing
+        rr = rng.random()
+        if rr < 0.08 and ops and ops[-1][0] in ("copy", "merge", "translate", "scale", "normalize", "fit", "to_origin", "flatten",
+                                                "scale_xyz"):
+            again = json.loads(json.dumps(ops[-1]))
+            ops.append(again)
+            if again[0] in ("copy", "merge"):
+                last = len(sh.n) - 1
+                o2 = sh.add(sh.n[last], sh.kind[last], sh.tri[last])
+                sh.hexa[o2], sh.closed[o2], sh.spent[o2] = sh.hexa[last], sh.closed[last], sh.spent[last]
+                sh.attrs[o2] = list(sh.attrs[last])
+        elif rr < 0.14:
+            m = rng.choice(anyms)
+            q = [rng.randrange(4), rng.randrange(4), rng.randrange(4)]
+            o_ = None if rng.random() < 0.5 else pt(rng)
+            ops.append(["rotate_euler", m, q, o_, rng.random() < 0.5])
+            if rng.random() < 0.3:       # and back: the inverse of Rz Ry Rx applied as three single-axis calls
+                ops.append(["rotate_euler", m, [0, 0, (4 - q[2]) % 4], o_, False])
+                ops.append(["rotate_euler", m, [0, (4 - q[1]) % 4, 0], o_, True])
+                ops.append(["rotate_euler", m, [(4 - q[0]) % 4, 0, 0], o_, False])
+                inv.append([len(ops) - 4, len(ops) - 1])
+        elif rr < 0.20:
+            kind = rng.choice(["rotate_shape", "rotate_type", "translate_len", "from_arrays_index", "from_arrays_cols", "ring_small",
+                               "merge_generator", "copy_none"])
+            tgt = None
+            if kind in ("rotate_shape", "rotate_type", "translate_len", "merge_generator"):
+                tgt = rng.choice(anyms)
+            elif kind == "from_arrays_index":
+                arrs = [a for a in sh.arrays() if sh.n[a] and sh.n[a] >= 2]
+                tgt = rng.choice(arrs) if arrs else None
+                if tgt is None:
+                    kind = "ring_small"
+            ops.append(["bad", kind, tgt])
+        elif rr < 0.215:
+            ops.append(["merge", []])
         # ---- mutable state other than coordinates: attributes on any container, element lists
         rr = rng.random()
         withn = [m for m in anyms if sh.n[m]]
@@ -400,4 +455,9 @@ def gen_case(rng, maxops=8):
             c = [m for m in anyms if growable(sh, m)]
             if c:
                 ops.append(["conn", rng.choice(c), rng.random() < 0.5])
-    return {"ops": ops, "inv": inv, "ints": ints}
+    case = {"ops": ops, "inv": inv, "ints": ints,
+            "form": rng.choice(["pos", "pos", "kw", "omit"]),
+            "numrep": rng.choice(["py", "py", "np64", "np32", "mixed"]),
+            "vecform": rng.choice(["vec", "vec", "list", "tuple", "ndarray"]),
+            "rotform": rng.choice(["matrix", "matrix", "object"])}
+    return case
